@@ -80,6 +80,10 @@ func (s *DefaultSaftyRules) CheckVote(qc QuorumCertInterface, logid string, vali
 	}
 	// 签名和公钥是否匹配
 	if ok, err := s.Crypto.VerifyVoteMsgSign(signs[0], qc.GetProposalId()); !ok {
+		if err == nil {
+			// a signature that does not verify over this proposal id is no vote for it
+			err = InvalidVoteSign
+		}
 		return err
 	}
 	// 检查voteinfo信息, proposalView小于lastVoteRound，parentView不小于preferredRound
